@@ -27,7 +27,10 @@ Definition event_eqb (a b : event) : bool :=
   | EvPreInit p k, EvPreInit p' k' =>
       vals_eqb p p' && list_eqb (fun x y => String.eqb (fst x) (fst y) && val_eqb (snd x) (snd y)) k k'
   | EvFactory f n s, EvFactory f' n' s' => String.eqb f f' && String.eqb n n' && Bool.eqb s s'
-  | EvConverter f n a, EvConverter f' n' a' => String.eqb f f' && String.eqb n n' && vals_eqb a a'
+  | EvConverter f n a, EvConverter f' n' a' =>
+      (* the observed side uses "" when one Converter object serves several fields: the callable cannot
+         know which field it is converting (its symbol and arguments are still compared) *)
+      (String.eqb f' "" || String.eqb f f') && String.eqb n n' && vals_eqb a a'
   | EvValidator f v x s, EvValidator f' v' x' s' =>
       String.eqb f f' && String.eqb v v' && val_eqb x x' && snap_eqb s s'
   | EvPostInit, EvPostInit => true
